@@ -64,9 +64,20 @@ func genReuseCase(t *rapid.T, prop string) *Case {
 	}
 	rc := &ReuseCase{}
 	n := rapid.IntRange(2, 30).Draw(t, "nops")
+	// swarm: one case in six is about one kind of object (doc-value readers, or
+	// dictionary enumerations), so that several of them live side by side long enough
+	kinds := []int{0, 0, 0, 0, 0, 1, 1, 2, 2, 3, 4, 4}
+	switch rapid.IntRange(0, 11).Draw(t, "focus") {
+	case 0:
+		kinds = []int{2, 2, 2, 2, 2, 0, 3}
+		n += 8
+	case 1:
+		kinds = []int{1, 1, 1, 1, 0, 4}
+		n += 8
+	}
 	for i := 0; i < n; i++ {
 		op := ReuseOp{
-			Kind: rapid.SampledFrom([]int{0, 0, 0, 0, 0, 1, 1, 2, 2, 3, 4, 4}).Draw(t, "kind"),
+			Kind: rapid.SampledFrom(kinds).Draw(t, "kind"),
 			Seg:  rapid.IntRange(0, 5).Draw(t, "seg"),
 		}
 		switch op.Kind {
@@ -118,6 +129,11 @@ func genReuseCase(t *rapid.T, prop string) *Case {
 				op.Absent = rapid.IntRange(0, 2).Draw(t, "prefer-empty") == 0
 			}
 			op.Slot = rapid.IntRange(0, 1).Draw(t, "dvslot")
+			if op.Kind == 2 {
+				// sticky: two doc-value visits in three go to the segment of the previous
+				// doc-value visit (so that the two readers of ONE segment interleave)
+				op.Same = rapid.IntRange(0, 2).Draw(t, "same-dvseg") != 0
+			}
 			if rapid.IntRange(0, 1).Draw(t, "edge") == 0 {
 				op.Doc = rapid.SampledFrom([]int{0, 5, 127, 128, 1000, 1023, 1024, 1025, 1500, 2047, 2048, 2049, 3071, 3072}).Draw(t, "edgedoc")
 			} else {
@@ -173,7 +189,14 @@ func runReuseCase(c *Case, env *Env) *Result {
 	}
 	var hist []lookup
 	lastEnumSeg, lastEnumField := -1, 0
+	lastDVSeg := -1
 	for oi, op := range c.Reuse.Ops {
+		if op.Kind == 2 {
+			if op.Same && lastDVSeg >= 0 {
+				op.Seg = lastDVSeg
+			}
+			lastDVSeg = op.Seg
+		}
 		if op.Kind == 1 {
 			if op.Same && lastEnumSeg >= 0 {
 				op.Seg, op.Field = lastEnumSeg, lastEnumField
